@@ -28,6 +28,85 @@ BT_R = "<tx::write_tx::BaseTransaction as readable::Readable>::"
 SW = "tx::single_writer::write_tx::WriteTransaction::<'tx>"
 
 
+def commit_rules(ctx, rule):
+    """BaseTransaction::commit turns the private buffers into the batch: newest write per key, once, for every keyspace
+    (shared with C01 — committed transactions must match the reference map — and C03)"""
+    F = ctx.F
+    cg = ctx.cg
+    # ---- R-C08.4 commit keeps the newest write per key, once
+    cm = ctx.fn(BT + "::commit", rule)
+    if cm:
+        og = ctx.og(cm)
+        push = [b for b, t in cm.calls() if A.cname(t).endswith("Vec::<T, A>::push")]
+        eqs = []
+        for b, t in cm.calls():
+            n = A.cname(t)
+            if (t.get("callee") or "").startswith("std::cmp::PartialEq::") and len(t["args"]) == 2:
+                a0, a1 = og.of_operand(t["args"][0]), og.of_operand(t["args"][1])
+                uk = any(x.k == "field" and x.a[1] == "user_key" for x in A.walk(a0)) or any(x.k == "field" and x.a[1] == "user_key" for x in A.walk(a1))
+                if uk:
+                    eqs.append((b, n.endswith("::ne")))
+        ok = False
+        detail = "no equality test between the entry's user_key and the previously pushed key"
+        if eqs and push:
+            b, is_ne = eqs[0]
+            sw = A.switch_after_call(cm, b)
+            if sw is not None:
+                zero, true_t = A.bool_edges(cm, sw)
+                equal_edge = zero if is_ne else true_t
+                # loop head: the Memtable iterator's next
+                heads = [bb for bb, tt in cm.calls() if A.cname(tt).endswith("::next") and A.in_cycle(cm, bb)]
+                r = A.reach(cm, equal_edge, avoid=heads)
+                ok = not any(p in r for p in push)
+                detail = "an entry whose key equals the previously pushed key is %s" % ("skipped (only the newest write per key is committed)" if ok else "pushed again: older writes of the same key would be committed too")
+        ctx.ob(rule, cm, "dedupe-per-key", ok, detail)
+        # prev_key remembered after push
+        okp = False
+        for b, blk in enumerate(cm.blocks):
+            for st in blk["s"]:
+                if not st["p"]["p"] and cm.local_name(st["p"]["l"]) and st["rv"]["k"] in ("use", "agg"):
+                    term = og.of_rvalue(st["rv"])
+                    if term.k == "agg" and term.a[0].endswith("Option::Some") and any(x.k == "field" and x.a[1] == "user_key" for x in A.walk(term)):
+                        if push and any(b in A.reach_after(cm, p) for p in push):
+                            okp = True
+        ctx.ob(rule, cm, "remembers-pushed-key", okp, "prev_key := Some(item.key.user_key) after each push" if okp else "the pushed key is not remembered for the next comparison")
+        # the remembered key belongs to ONE keyspace's buffer: it is forgotten when the commit moves on to the next keyspace
+        # (or the comparison also involves the keyspace). Otherwise the first write to key k in the next keyspace is taken
+        # for an older version of the last key of the previous keyspace and silently dropped from the transaction.
+        mem = set()
+        for b, blk in enumerate(cm.blocks):
+            for st in blk["s"]:
+                if not st["p"]["p"] and st["rv"]["k"] in ("use", "agg"):
+                    term = og.of_rvalue(st["rv"])
+                    if term.k == "agg" and term.a[0].endswith("Option::Some") and any(x.k == "field" and x.a[1] == "user_key" for x in A.walk(term)):
+                        mem.add(st["p"]["l"])
+        outer_heads = [bb for bb, tt in cm.calls() if A.cname(tt).endswith("::next") and A.in_cycle(cm, bb) and "hash_map::IntoIter" in (tt.get("full") or "")]
+        inits = [b for b, blk in enumerate(cm.blocks) if not blk["cleanup"] for st in blk["s"]
+                 if not st["p"]["p"] and st["p"]["l"] in mem and st["rv"]["k"] == "agg" and st["rv"].get("variant") == "None"]
+        okr = False
+        detail = "no per-key dedupe state found"
+        if mem and outer_heads and inits:
+            per_ks = [b for b in inits if A.in_cycle(cm, b) and outer_heads[0] in A.reach_after(cm, b)]
+            cmp_has_ks = False
+            for b, t in cm.calls():
+                if (t.get("callee") or "").startswith("std::cmp::PartialEq::") and len(t["args"]) == 2:
+                    ts = [og.of_operand(a) for a in t["args"]]
+                    if any("keyspace::Keyspace" in cm.local_ty(A.op_place(a)["l"]) for a in t["args"] if A.op_place(a) is not None):
+                        cmp_has_ks = True
+            okr = bool(per_ks) or cmp_has_ks
+            detail = "the remembered key is reset to None for every keyspace's buffer" if per_ks else (
+                "the dedupe comparison also compares the keyspace" if cmp_has_ks else
+                "the remembered key survives from one keyspace's buffer to the next (initialised once, before the per-keyspace loop): when the last key written in one keyspace equals the first key written in the next, that write is dropped from the commit")
+        ctx.ob(rule, cm, "dedupe-state-reset-per-keyspace", okr, detail)
+        # pushed item = (this keyspace, this key, this value, this value type)
+        for b, t in cm.calls():
+            if A.cname(t).startswith("batch::item::Item::new"):
+                args = [og.of_operand(a) for a in t["args"]]
+                okf = any(x.k == "field" and x.a[1] == "user_key" for x in A.walk(args[1])) and any(x.k == "field" and x.a[1] == "value" for x in A.walk(args[2])) and any(x.k == "field" and x.a[1] == "value_type" for x in A.walk(args[3]))
+                ctx.ob(rule, cm, "pushes-the-entry-unchanged", okf, "Item::new(keyspace, item.key.user_key, item.value, item.key.value_type)" if okf else "commit pushes something else than the buffered entry: %s" % [A.tstr(a)[:40] for a in args], cm.loc(b))
+
+
+
 def run(ctx):
     F = ctx.F
     cg = ctx.cg
@@ -155,49 +234,7 @@ def run(ctx):
                 chain = cg.call_chain(it, leak_targets | {BT + "::commit"})
                 ctx.ob("R-C08.3", it, "drop-does-not-commit", chain is None, "Drop of a transaction %s" % ("has no database effect" if chain is None else "commits/writes: " + " -> ".join(chain)))
 
-    # ---- R-C08.4 commit keeps the newest write per key, once
-    cm = ctx.fn(BT + "::commit", "R-C08.4")
-    if cm:
-        og = ctx.og(cm)
-        push = [b for b, t in cm.calls() if A.cname(t).endswith("Vec::<T, A>::push")]
-        eqs = []
-        for b, t in cm.calls():
-            n = A.cname(t)
-            if (t.get("callee") or "").startswith("std::cmp::PartialEq::") and len(t["args"]) == 2:
-                a0, a1 = og.of_operand(t["args"][0]), og.of_operand(t["args"][1])
-                uk = any(x.k == "field" and x.a[1] == "user_key" for x in A.walk(a0)) or any(x.k == "field" and x.a[1] == "user_key" for x in A.walk(a1))
-                if uk:
-                    eqs.append((b, n.endswith("::ne")))
-        ok = False
-        detail = "no equality test between the entry's user_key and the previously pushed key"
-        if eqs and push:
-            b, is_ne = eqs[0]
-            sw = A.switch_after_call(cm, b)
-            if sw is not None:
-                zero, true_t = A.bool_edges(cm, sw)
-                equal_edge = zero if is_ne else true_t
-                # loop head: the Memtable iterator's next
-                heads = [bb for bb, tt in cm.calls() if A.cname(tt).endswith("::next") and A.in_cycle(cm, bb)]
-                r = A.reach(cm, equal_edge, avoid=heads)
-                ok = not any(p in r for p in push)
-                detail = "an entry whose key equals the previously pushed key is %s" % ("skipped (only the newest write per key is committed)" if ok else "pushed again: older writes of the same key would be committed too")
-        ctx.ob("R-C08.4", cm, "dedupe-per-key", ok, detail)
-        # prev_key remembered after push
-        okp = False
-        for b, blk in enumerate(cm.blocks):
-            for st in blk["s"]:
-                if not st["p"]["p"] and cm.local_name(st["p"]["l"]) and st["rv"]["k"] in ("use", "agg"):
-                    term = og.of_rvalue(st["rv"])
-                    if term.k == "agg" and term.a[0].endswith("Option::Some") and any(x.k == "field" and x.a[1] == "user_key" for x in A.walk(term)):
-                        if push and any(b in A.reach_after(cm, p) for p in push):
-                            okp = True
-        ctx.ob("R-C08.4", cm, "remembers-pushed-key", okp, "prev_key := Some(item.key.user_key) after each push" if okp else "the pushed key is not remembered for the next comparison")
-        # pushed item = (this keyspace, this key, this value, this value type)
-        for b, t in cm.calls():
-            if A.cname(t).startswith("batch::item::Item::new"):
-                args = [og.of_operand(a) for a in t["args"]]
-                okf = any(x.k == "field" and x.a[1] == "user_key" for x in A.walk(args[1])) and any(x.k == "field" and x.a[1] == "value" for x in A.walk(args[2])) and any(x.k == "field" and x.a[1] == "value_type" for x in A.walk(args[3]))
-                ctx.ob("R-C08.4", cm, "pushes-the-entry-unchanged", okf, "Item::new(keyspace, item.key.user_key, item.value, item.key.value_type)" if okf else "commit pushes something else than the buffered entry: %s" % [A.tstr(a)[:40] for a in args], cm.loc(b))
+    commit_rules(ctx, "R-C08.4")
 
     # ---- R-C08.5 single writer
     wt = ctx.fn("tx::single_writer::TxDatabase::write_tx", "R-C08.5")
